@@ -38,6 +38,38 @@ theorem exec_rel {α β} (R : α → β → Prop) (s1 : Nat → List α → α) 
       | cons i is ih2 => exact .cons (h i) ih2
     · exact h l
 
+theorem All2.getD {α β} {R : α → β → Prop} {xs : List α} {ys : List β} (h : All2 R xs ys)
+    (i : Nat) (dx : α) (dy : β) (hd : R dx dy) : R (xs.getD i dx) (ys.getD i dy) := by
+  induction h generalizing i with
+  | nil => simpa using hd
+  | cons hab _ ih =>
+    cases i with
+    | zero => simpa using hab
+    | succ i => simpa using ih i
+
+theorem All2.map {α β} {R : α → β → Prop} {e1 : Nat → α} {e2 : Nat → β} (h : ∀ l, R (e1 l) (e2 l))
+    (is : List Nat) : All2 R (is.map e1) (is.map e2) := by
+  induction is with
+  | nil => exact .nil
+  | cons i is ih => exact .cons (h i) ih
+
+/-- simulation lemma with a per-op hypothesis: only the ops of this program need to preserve `R` -/
+theorem exec_rel_on {α β} (R : α → β → Prop) (s1 : Nat → List α → α) (s2 : Nat → List β → β)
+    (ops : List Op)
+    (hop : ∀ op ∈ ops, ∀ (xs : List α) (ys : List β), All2 R xs ys → R (s1 op.code xs) (s2 op.code ys))
+    (e1 : Nat → α) (e2 : Nat → β) (h : ∀ l, R (e1 l) (e2 l)) :
+    ∀ l, R (exec s1 ops e1 l) (exec s2 ops e2 l) := by
+  induction ops generalizing e1 e2 with
+  | nil => simpa [exec] using h
+  | cons op ops ih =>
+    simp only [exec, List.foldl_cons]
+    apply ih (fun o ho => hop o (List.mem_cons_of_mem _ ho))
+    intro l
+    simp only [execOp, upd]
+    split
+    · exact hop op (List.mem_cons_self) _ _ (All2.map h op.ins)
+    · exact h l
+
 /-- two ops with disjoint footprints commute -/
 theorem execOp_comm {α} (sem : Nat → List α → α) (a b : Op) (env : Nat → α)
     (h1 : a.out ≠ b.out) (h2 : a.out ∉ b.ins) (h3 : b.out ∉ a.ins) :
